@@ -32,6 +32,7 @@ def run(ctx):
     ctx.rule(dtype_in)
     ctx.rule(dtype_out)
     ctx.rule(full_keeps_dtype)
+    ctx.rule(chunk_dtype_fixed_point)
     ctx.rule(fft_pairing)
     ctx.rule(prep)
     ctx.rule(logfloor)
@@ -120,6 +121,33 @@ def dtype_out(ctx, R="R-C03-dtype-out"):
         for r in astq.returns_of(f):
             ctx.check(astq.is_name(r.value, "coeffs"), R, f, r, "%s returns that array" % name, "%s returns %s" % (name, astq.text(r.value)))
         ctx.check("self.num_coeffs" in " ".join(astq.text(a.value) for a in allocs), R, f, allocs[0], "%s results have num_coeffs columns" % name, structural=True)
+
+
+def chunk_dtype_fixed_point(ctx, R="R-C03-dtype-out"):
+    """The dtype remembered at the first chunk is the chunk's own dtype, and later chunks are compared with it: a second chunk
+    of the same signal must pass the test.  Forward substitution of _compute_preamble in the two states (fresh / started)."""
+    prog = ctx.prog
+    c = _si(prog)
+    pre = prog.own_method(c, "_compute_preamble")
+    ch = pre.params[1]
+    d = S.sym(ch + ".dtype")
+    ev0 = SymEval(prog, pre, seed={"self._started": False}).run()
+    stored = ev0.env.get("self._ret_dtype")
+    if stored is None:
+        ctx.error(R, "cannot decide which dtype is remembered for the utterance: _compute_preamble no longer assigns self._ret_dtype")
+        return
+    what = "the dtype remembered at the first chunk is that chunk's dtype (what later chunks are compared with, and what the result is returned in)"
+    if stored == d:
+        ctx.ok(R, pre.loc(), what)
+    else:
+        widening = any(isinstance(x, S.E) and x.op == "call" and x.args[0] in ("np.result_type", "np.promote_types", "np.find_common_type", "np.dtype")
+                       for x in S.walk(stored)) or stored.is_const or any(isinstance(x, S.E) and x.op == "sym" and x.args[0].startswith(("numpy.float", "np.float")) for x in S.walk(stored))
+        if widening and not S.has_unknown(stored):
+            ctx.bad(R, pre, pre.node, "the utterance's dtype is remembered as %s, not as the first chunk's own dtype: for a signal of another precision (float16, or an "
+                    "integer type) the result is not returned in the signal's dtype, and a second chunk of the same signal fails the comparison with the "
+                    "remembered dtype although nothing changed" % S.show(stored)[:80], what)
+        else:
+            ctx.error(R, "cannot decide which dtype is remembered for the utterance: %s" % S.show(stored)[:100])
 
 
 def _dtype_class(e, sig):
